@@ -71,6 +71,12 @@ def run_property(prop, tier, A, seed):
                       f"confirmed by hand and at least {need} are required — the rule lost its anchors (vacuous pass refused)")
                 return 2
         selftest = None
+        if tier == "quick" and os.environ.get("HSA_NO_CANARY") != "1":
+            from .selftest import run_canary
+            selftest = run_canary(prop, A)
+            if selftest.get("missed"):
+                print(f"ANALYSIS-ERROR property={prop} self-test: {selftest['missed'][0]}")
+                return 2
         if tier == "thorough":
             from .selftest import run_selftest
             selftest = run_selftest(prop, A)
